@@ -22,7 +22,7 @@ vars == <<ph, entry, b, seq, ps>>
 Init == ph = "start" /\ entry = "feature" /\ b = 0 /\ seq = <<>> /\ ps = InitOf("feature")
 
 \* the state after feeding `seq` (tags entry: parse_tags works on the whole text)
-After(e, s, old, k) == IF e = "tags" THEN RunTags(Lines(s)) ELSE Feed(old, LineOf(k))
+After(e, s, old, k) == IF e = "tags" THEN FeedTag(old, LineOf(k)) ELSE Feed(old, LineOf(k))
 \* sequences are spread over buckets by their first two lines
 Next == \/ /\ ph = "start" /\ ph' = "entry" /\ entry' \in {Entries[j] : j \in DOMAIN Entries} /\ UNCHANGED <<b, seq>>
            /\ ps' = IF entry' = "tags" THEN RunTags(<<>>) ELSE InitOf(entry')
@@ -40,9 +40,7 @@ Final == IF entry = "tags" THEN ps ELSE AtEof(ps)
 Out == Outcome(Final)
 Judged == ph = "seq" \/ (ph = "bucket" /\ b = 0)         \* the empty text is judged once per entry point
 
-\* ------------------------------------------------------------ known defects (narrow; see the report / known_findings)
-\* 1: "# language: xx" with an unknown language: KeyError escapes from parse_feature
-KF_C05_1(e, o) == e = "feature" /\ o.why = "KeyError" /\ o.site = "languages[x]"
+\* ------------------------------------------------------------ known defects (narrow; see known_findings.json)
 \* 2: Rule / Scenario Outline / Background lines given to parse_rule, parse_scenario, parse_steps: no feature / container
 KF_C05_2(e, o) == e \in {"rule", "scenario", "steps"} /\ o.why = "AttributeError"
                   /\ o.site \in {"feature.add_rule", "container.add_scenario", "container.add_background"}
@@ -50,25 +48,20 @@ KF_C05_2(e, o) == e \in {"rule", "scenario", "steps"} /\ o.why = "AttributeError
 KF_C05_3(e, o) == e = "rule" /\ o.why = "AttributeError" /\ o.site = "container.description"
 \* 4: parse_scenario: a step or description line before the Scenario line (self.statement is None)
 KF_C05_4(e, o) == e = "scenario" /\ o.why = "AttributeError" /\ o.site \in {"statement.steps", "statement.description"}
-\* 5: a table row without closing pipe outside parse_feature: the warning dereferences self.feature
-KF_C05_5(e, o) == e \in {"rule", "scenario", "steps"} /\ o.why = "AttributeError" /\ o.site = "feature.filename"
-\* 6: parse_tags: text not starting with '@' trips an assert
-KF_C05_6(e, o) == e = "tags" /\ o.why = "AssertionError" /\ o.site = "assert"
-\* 7: parse_tags: ParserError carries line 0
-KF_C05_7(e, o) == e = "tags" /\ o.k = "error" /\ o.n = 0
-KnownCrash(e, o) == KF_C05_1(e, o) \/ KF_C05_2(e, o) \/ KF_C05_3(e, o) \/ KF_C05_4(e, o) \/ KF_C05_5(e, o) \/ KF_C05_6(e, o)
+\* (1, 5, 6, 7 were repaired in behave: unknown language header, malformed row outside parse_feature, parse_tags)
+KnownCrash(e, o) == KF_C05_2(e, o) \/ KF_C05_3(e, o) \/ KF_C05_4(e, o)
 
 NoCrash == Judged => (Out.k = "crash" => KnownCrash(entry, Out))
-ErrorLineInRange == Judged => (Out.k = "error" => ((1 <= Out.n /\ Out.n <= Len(seq)) \/ KF_C05_7(entry, Out)))
+ErrorLineInRange == Judged => (Out.k = "error" => (1 <= Out.n /\ Out.n <= Len(seq)))
 \* an error is always reported at the line that is being read (= the last line of the pruned sequence)
-ErrorAtLastLine == Judged /\ entry # "tags" => (Out.k = "error" => Out.n = Len(seq))
+ErrorAtLastLine == Judged => (Out.k = "error" => Out.n = Len(seq))
 \* the strict forms: TLC must find the known defects (checked by the driver in a second, expected-to-fail run)
 NoCrashStrict == Judged => Out.k # "crash"
 
 RECURSIVE Hash(_,_)
 Hash(s, j) == IF j > Len(s) THEN 0 ELSE s[j] * (2 * j + 1) + Hash(s, j + 1)
 Emitted == Judged /\ (Len(seq) < MaxLen \/ EmitMod = 1 \/ Hash(seq, 1) % EmitMod = 0)
-Emit == Emitted => PrintT(<<"CASE", entry, Codes(seq), Out.k, Out.n, Out.why, Out.site, KnownCrash(entry, Out) \/ KF_C05_7(entry, Out)>>)
+Emit == Emitted => PrintT(<<"CASE", entry, Codes(seq), Out.k, Out.n, Out.why, Out.site, KnownCrash(entry, Out)>>)
 EmitAlphabet == ph = "start" => PrintT(<<"ALPHA", ToJson(Alphabet)>>)
 
 \* ------------------------------------------------------------ alphabets
